@@ -56,6 +56,26 @@ pub fn generate(seed: u64, run: u64, _tier: Tier, st: &mut Stats) -> StreamCase 
             biggest = m;
         }
     }
+    // 1 run in 6: the first task's source reports end of file once at one or two record
+    // boundaries and then goes on (a log file that is still being written); the reader is called
+    // again, as a follower would, and must go on delivering exactly like the blocking reader
+    let mut aux: Vec<u64> = vec![];
+    if rs.chance(1, 6) {
+        let (pieces, _) = crate::model::cut_all(&media[0], storage);
+        let mut cands: Vec<usize> = pieces.iter().map(|(_, e)| *e).filter(|e| *e < media[0].len()).collect();
+        cands.insert(0, 0);
+        if media[0].len() > 0 {
+            policies[0].eof_at = None;
+            policies[0].err_at = None;
+            let k = 1 + rs.below(2);
+            for _ in 0..k {
+                let s = *rs.pick(&cands) as u64;
+                if !aux.contains(&s) {
+                    aux.push(s);
+                }
+            }
+        }
+    }
     let (mut buf_cap, mut msg_max) = draw_capacities(&mut rs, biggest, storage, 4);
     let filter = draw_filter(&mut rw, alphabet, 30);
     let sched_seed = rs.next_u64();
@@ -77,6 +97,7 @@ pub fn generate(seed: u64, run: u64, _tier: Tier, st: &mut Stats) -> StreamCase 
         buf_cap,
         msg_max,
         tight_max,
+        aux,
         gen: Some(GenInfo { policy: policies[0].clone(), sched_seed, co_policies: policies[1..].to_vec() }),
         notes,
         seed,
@@ -94,6 +115,33 @@ pub struct TaskOut {
     pub terminal_calls: usize,
 }
 
+/// blocking source for the reference reader with the same transient ends of file
+struct SegRead<'a> {
+    data: &'a [u8],
+    pos: usize,
+    stops: Vec<(usize, bool)>,
+}
+impl<'a> std::io::Read for SegRead<'a> {
+    fn read(&mut self, buf: &mut [u8]) -> std::io::Result<usize> {
+        let pos = self.pos;
+        if pos >= self.data.len() || buf.is_empty() {
+            return Ok(0);
+        }
+        if let Some(t) = self.stops.iter_mut().find(|(o, f)| *o == pos && !*f) {
+            t.1 = true;
+            return Ok(0);
+        }
+        let mut n = buf.len().min(self.data.len() - pos);
+        if let Some(next) = self.stops.iter().filter(|(o, f)| !*f && *o > pos).map(|(o, _)| *o).min() {
+            n = n.min(next - pos);
+        }
+        buf[..n].copy_from_slice(&self.data[pos..pos + n]);
+        self.pos += n;
+        Ok(n)
+    }
+}
+
+#[allow(clippy::too_many_arguments)]
 async fn reader_task(
     src: ScriptedPoll,
     core: Rc<RefCell<Core>>,
@@ -102,13 +150,14 @@ async fn reader_task(
     caps: (usize, usize),
     filter: Option<ProcessedDltFilterConfig>,
     out: Rc<RefCell<TaskOut>>,
+    stops: Vec<usize>,
 ) {
     let mut reader = if caps == (0, 0) {
         DltStreamReader::new(src, storage)
     } else {
         DltStreamReader::with_capacity(caps.0, caps.1, src, storage)
     };
-    let mut plan = CallPlan::new_lim(&data, storage, caps.1);
+    let mut plan = CallPlan::new_lim(&data, storage, caps.1).with_stops(&stops);
     let mut ncalls = 0usize;
     loop {
         // either public entry point (see scen_common::reader_call)
@@ -137,13 +186,14 @@ async fn reader_task(
 }
 
 /// reference: the blocking reader over the same bytes, always ready, never fragmenting
-pub fn reference(eff: &[u8], storage: bool, caps: (usize, usize), filter: Option<&ProcessedDltFilterConfig>) -> (Vec<Res>, usize) {
+pub fn reference(eff: &[u8], storage: bool, caps: (usize, usize), filter: Option<&ProcessedDltFilterConfig>, stops: &[usize]) -> (Vec<Res>, usize) {
+    let src = SegRead { data: eff, pos: 0, stops: stops.iter().map(|s| (*s, false)).collect() };
     let mut reader = if caps == (0, 0) {
-        DltMessageReader::new(eff, storage)
+        DltMessageReader::new(src, storage)
     } else {
-        DltMessageReader::with_capacity(caps.0, caps.1, eff, storage)
+        DltMessageReader::with_capacity(caps.0, caps.1, src, storage)
     };
-    let mut plan = CallPlan::new_lim(eff, storage, caps.1);
+    let mut plan = CallPlan::new_lim(eff, storage, caps.1).with_stops(stops);
     let mut results = vec![];
     loop {
         let r = match guarded(|| dlt_core::read::read_message(&mut reader, filter)) {
@@ -193,9 +243,12 @@ pub fn execute(case: &StreamCase, st: &mut Stats) -> Exec {
             None => (None, Rng::new(0)),
         };
         let core = Rc::new(RefCell::new(Core::new(data.clone(), scripts[t].clone(), policy, rng)));
+        // transient ends of file of the first task (aux)
+        let stops: Vec<usize> = if t == 0 { case.aux.iter().map(|x| *x as usize).filter(|x| *x < data.len()).collect() } else { vec![] };
+        core.borrow_mut().teof = stops.iter().map(|s| (*s, false)).collect();
         let out = Rc::new(RefCell::new(TaskOut { results: vec![], terminal_calls: 0 }));
         let src = ScriptedPoll { core: core.clone(), lot: lot.clone(), task: t };
-        ex.spawn(Box::pin(reader_task(src, core.clone(), data.clone(), case.storage, caps, filter.clone(), out.clone())));
+        ex.spawn(Box::pin(reader_task(src, core.clone(), data.clone(), case.storage, caps, filter.clone(), out.clone(), stops)));
         cores.push(core);
         outs.push(out);
     }
@@ -251,7 +304,9 @@ pub fn execute(case: &StreamCase, st: &mut Stats) -> Exec {
             continue;
         }
         // ---- oracle: compare with the blocking reader on the same (effective) bytes ----------
-        let (refr, ref_term_calls) = reference(eff, case.storage, caps, filter.as_ref());
+        let stops: Vec<usize> = if t == 0 && !failed && !core.eof_forced { case.aux.iter().map(|x| *x as usize).filter(|x| *x < data.len()).collect() } else { vec![] };
+        st.add("source_transient_eof", core.stats.transient_eof);
+        let (refr, ref_term_calls) = reference(eff, case.storage, caps, filter.as_ref(), &stops);
         if let Some(Res::Panic(p)) = results.iter().find(|r| r.is_panic()) {
             v.push(Violation::new("C08.c", &format!("panic@{}", panic_site(p)), format!("task {}: a poll panicked: {} (cutter at that point: {:?})", t, p, term)));
             continue;
@@ -270,8 +325,10 @@ pub fn execute(case: &StreamCase, st: &mut Stats) -> Exec {
             v.push(Violation::new("C08.d", "too-many-polls", format!("task {}: {} polls for {} Pending decisions and {} calls", t, ex.tasks[t].polls, pdec, results.len())));
             continue;
         }
-        // a) message sequence before the terminal
-        let n_main = pieces.len();
+        // a) message sequence before the terminal (with a "no more message" at every transient end
+        // of file the walk passes)
+        let last_end = pieces.last().map_or(0, |p| p.1);
+        let n_main = pieces.len() + stops.iter().filter(|s| **s <= last_end).count();
         let mut bad = false;
         for i in 0..n_main {
             let a = results.get(i);
